@@ -1478,6 +1478,8 @@ func parseEnumOld(val string, s *spec.SimpleSchema) []interface{} {
 	list := strings.Split(val, ",")
 	interfaceSlice := make([]interface{}, len(list))
 	for i, d := range list {
+		// "enum: 1, 2, 3": the blanks around the commas are not part of the values
+		d = strings.TrimSpace(d)
 		v, err := parseValueFromSchema(d, s)
 		if err != nil {
 			interfaceSlice[i] = d
